@@ -153,3 +153,144 @@ Section Segment.
         rewrite Hproj. unfold K. apply Rmult_comm.
   Qed.
 End Segment.
+
+(* ---- semi-infinite filament leaving the joint along the unit vector u, seen at r = PC - joint ---- *)
+Section Trailing.
+  (* x / sqrt(x^2 + K) -> 1 as x -> +infinity, with the explicit bound 1 - x/sqrt(x^2+K) <= K / (2 x) for x >= 1 *)
+  Lemma ratio_bound K x : 0 < K -> 1 <= x -> 0 <= 1 - x / sqrt (x * x + K) <= K / (2 * x).
+  Proof.
+    intros HK Hx. set (s := sqrt (x * x + K)).
+    assert (Hs2 : s * s = x * x + K) by (unfold s; apply sqrt_sqrt; nra).
+    assert (Hs : 0 < s) by (unfold s; apply sqrt_lt_R0; nra).
+    assert (Hsx : x < s) by nra.
+    assert (E : 1 - x / s = (s - x) / s) by (field; lra).
+    rewrite E. split.
+    - apply Rlt_le, Rdiv_lt_0_compat; lra.
+    - (* (s - x)/s = K / (s (s + x)) <= K / (2 x) since s (s+x) >= 2 x^2 >= 2 x *)
+      assert (E2 : (s - x) / s = K / (s * (s + x))).
+      { apply (Rmult_eq_reg_r (s * (s + x))); [|apply Rgt_not_eq; nra]. field_simplify_eq; [|split; lra]. nra. }
+      rewrite E2. unfold Rdiv. apply Rmult_le_compat_l; [lra|].
+      apply Rinv_le_contravar; [lra | nra].
+  Qed.
+
+  Variables b0 c : R.                         (* b0 = u . r,  c = r . r,  |u| = 1 *)
+  Hypothesis HK : 0 < c - b0 * b0.            (* the control point is not on the line of the filament *)
+  Hypothesis Hc : 0 <= c.
+  Let e := 1 + c - 2 * b0.                     (* |r - u|^2 *)
+  Let d := c - b0.                             (* r . (r - u) *)
+
+  Lemma trail_nc : 0 < c * e - d * d.
+  Proof. unfold e, d. nra. Qed.
+  Lemma qd_trail t : qd c e d t = t * t - 2 * b0 * t + c.
+  Proof. unfold qd, e, d. ring. Qed.
+  Lemma Fd_trail t : Fd c e d t = (t - b0) / ((c - b0 * b0) * sqrt (t * t - 2 * b0 * t + c)).
+  Proof. unfold Fd. rewrite qd_trail. unfold e, d. f_equal; [ring | f_equal; ring]. Qed.
+
+  (* the truncated integral, for every length T *)
+  Lemma trail_truncated T : is_RInt (fun t => / (qd c e d t * sqrt (qd c e d t))) 0 T (Fd c e d T - Fd c e d 0).
+  Proof.
+    apply (is_RInt_derive (Fd c e d) (fun t => / (qd c e d t * sqrt (qd c e d t)))).
+    - intros t _. apply Fd_derive; [exact trail_nc | exact Hc].
+    - intros t _. pose proof (qd_pos c e d trail_nc Hc t) as Hq.
+      apply (ex_derive_continuous (fun t => / (qd c e d t * sqrt (qd c e d t)))). unfold qd. auto_derive.
+      replace ((c + e - 2 * d) * t * t + - (2 * (c - d) * t) + c) with (qd c e d t) by (unfold qd; ring).
+      assert (0 < sqrt (qd c e d t)) by (apply sqrt_lt_R0; exact Hq).
+      repeat split; try exact I; try lra. apply Rgt_not_eq. apply Rmult_gt_0_compat; lra.
+  Qed.
+
+  (* F(T) -> 1 / (c - b0^2) as the filament is followed to infinity *)
+  Lemma Fd_limit : is_lim (Fd c e d) p_infty (/ (c - b0 * b0)).
+  Proof.
+    apply is_lim_spec. intros eps. set (K := c - b0 * b0) in *.
+    (* for T - b0 >= 1 and T - b0 > 1/(2 eps):  |F(T) - 1/K| = (1 - x/sqrt(x^2+K))/K <= 1/(2x) < eps *)
+    exists (b0 + 1 + / (2 * eps)). intros T HT.
+    assert (He : 0 < eps) by apply cond_pos.
+    assert (Hie : 0 < / (2 * eps)) by (apply Rinv_0_lt_compat; lra).
+    set (x := T - b0). assert (Hx : 1 <= x) by (unfold x; lra).
+    rewrite Fd_trail. fold K.
+    replace (T * T - 2 * b0 * T + c) with (x * x + K) by (unfold x, K; ring).
+    fold x. destruct (ratio_bound K x HK Hx) as [B0 B1].
+    assert (Hs : 0 < sqrt (x * x + K)) by (apply sqrt_lt_R0; nra).
+    replace (x / (K * sqrt (x * x + K)) - / K) with (- ((1 - x / sqrt (x * x + K)) / K)) by (field; split; lra).
+    rewrite Rabs_Ropp, Rabs_pos_eq by (apply Rmult_le_pos; [lra | apply Rlt_le, Rinv_0_lt_compat; lra]).
+    apply Rle_lt_trans with (K / (2 * x) / K).
+    - unfold Rdiv at 1 3. apply Rmult_le_compat_r; [apply Rlt_le, Rinv_0_lt_compat; lra | exact B1].
+    - replace (K / (2 * x) / K) with (/ (2 * x)) by (field; split; lra).
+      assert (Hx2 : / (2 * eps) < x) by (unfold x; lra).
+      (* 1/(2x) < eps  <=>  1/(2 eps) < x *)
+      apply (Rmult_lt_reg_r (2 * x)); [lra|]. rewrite Rinv_l by lra.
+      apply (Rmult_lt_compat_l (2 * eps)) in Hx2; [|lra]. rewrite Rinv_r in Hx2 by lra. lra.
+  Qed.
+
+  (* value of the improper integral: (|r| + u.r) / (|r| (c - (u.r)^2)) = 1 / (|r| (|r| - u.r)) *)
+  Theorem trail_integral_limit :
+    is_lim (fun T => Fd c e d T - Fd c e d 0) p_infty (/ (sqrt c * (sqrt c - b0))).
+  Proof.
+    assert (Hcp : 0 < c) by (pose proof (c_pos c e d trail_nc Hc); assumption).
+    set (R0 := sqrt c). assert (H0 : 0 < R0) by (apply sqrt_lt_R0; exact Hcp).
+    assert (S0 : R0 * R0 = c) by (apply sqrt_sqrt; lra).
+    assert (Hf : (R0 - b0) * (R0 + b0) = c - b0 * b0) by (rewrite <- S0; ring).
+    assert (Hm : 0 < R0 - b0).
+    { destruct (Rle_or_lt (R0 - b0) 0) as [Hle|Hlt]; [|exact Hlt]. exfalso.
+      assert (0 < R0 + b0) by lra.
+      assert ((R0 - b0) * (R0 + b0) <= 0) by (rewrite <- (Rmult_0_l (R0 + b0)); apply Rmult_le_compat_r; lra). lra. }
+    assert (Hp : 0 < R0 + b0).
+    { destruct (Rle_or_lt (R0 + b0) 0) as [Hle|Hlt]; [|exact Hlt]. exfalso.
+      assert ((R0 - b0) * (R0 + b0) <= 0) by (rewrite <- (Rmult_0_r (R0 - b0)); apply Rmult_le_compat_l; lra). lra. }
+    replace (/ (R0 * (R0 - b0))) with (/ (c - b0 * b0) - Fd c e d 0).
+    - apply (is_lim_minus (Fd c e d) (fun _ => Fd c e d 0) p_infty (/ (c - b0 * b0)) (Fd c e d 0)).
+      + exact Fd_limit.
+      + apply is_lim_const.
+      + reflexivity.
+    - rewrite Fd_trail. replace (0 * 0 - 2 * b0 * 0 + c) with c by ring. fold R0.
+      rewrite <- Hf. field. repeat split; lra.
+  Qed.
+End Trailing.
+
+Section TrailingVec.
+  Variables u r : v3 R.
+  Hypothesis Hu : vnorm2 u = 1.
+  Hypothesis Hnc : 0 < vnorm2 r - vdot u r * vdot u r.     (* the control point is not on the line of the filament *)
+  Definition rho_t (t : R) : v3 R := vsub r (vscale t u).   (* from the point joint + t u of the filament to the control point *)
+
+  Lemma cross_const_t t : vcross u (rho_t t) = vcross u r.
+  Proof. unfold rho_t. destruct u, r. apply V3_eq; rcompute; ring. Qed.
+  Lemma rho_t_norm2 t : vnorm2 (rho_t t) = qd (vnorm2 r) (1 + vnorm2 r - 2 * vdot u r) (vnorm2 r - vdot u r) t.
+  Proof.
+    rewrite qd_trail. unfold rho_t. destruct u as [a b c], r as [x y z]. unfold vnorm2, vdot in *. rcompute. rcompute_in Hu.
+    replace ((x - t * a) * (x - t * a) + (y - t * b) * (y - t * b) + (z - t * c) * (z - t * c))
+      with (t * t * (a * a + b * b + c * c) - 2 * (a * x + b * y + c * z) * t + (x * x + y * y + z * z)) by ring.
+    rewrite Hu. ring.
+  Qed.
+  Lemma norm2_nonneg_t (v : v3 R) : 0 <= vnorm2 v.
+  Proof. destruct v; unfold vnorm2, vdot; rcompute; nra. Qed.
+
+  (* the filament followed to the length T, and its limit: the code's closed form for the semi-infinite filament *)
+  Theorem trail_kernel_is_biot_savart (proj : v3 R -> R) (Hproj : forall k v, proj (vscale k v) = k * proj v) :
+    let c := vnorm2 r in let b0 := vdot u r in
+    let F := Fd c (1 + c - 2 * b0) (c - b0) in
+    (forall T, is_RInt (fun t => proj (vscale (/ (vnorm2 (rho_t t) * sqrt (vnorm2 (rho_t t)))) (vcross u (rho_t t)))) 0 T
+                       (proj (vcross u r) * (F T - F 0))) /\
+    is_lim (fun T => proj (vcross u r) * (F T - F 0)) p_infty
+           (proj (vdivs (vcross u r) (vnorm r * (vnorm r - vdot u r)))).
+  Proof.
+    intros c b0 F. split.
+    - intro T.
+      pose proof (trail_truncated b0 c Hnc (norm2_nonneg_t r) T) as HI.
+      set (K := proj (vcross u r)).
+      set (f := fun t => / (qd c (1 + c - 2 * b0) (c - b0) t * sqrt (qd c (1 + c - 2 * b0) (c - b0) t))) in *.
+      apply (is_RInt_ext (fun t => K * f t)).
+      + intros t _.
+        assert (E : (K * f t)%R = proj (vscale (/ (vnorm2 (rho_t t) * sqrt (vnorm2 (rho_t t)))) (vcross u (rho_t t)))).
+        { rewrite cross_const_t, rho_t_norm2, Hproj. unfold f, K, c, b0. ring. }
+        exact E.
+      + exact (is_RInt_scal f 0 T K (F T - F 0) HI).
+    - pose proof (trail_integral_limit b0 c Hnc (norm2_nonneg_t r)) as HL.
+      replace (proj (vdivs (vcross u r) (vnorm r * (vnorm r - vdot u r)))) with (proj (vcross u r) * / (sqrt c * (sqrt c - b0))).
+      + apply (is_lim_scal_l (fun T => F T - F 0) (proj (vcross u r)) p_infty (/ (sqrt c * (sqrt c - b0))) HL).
+      + unfold vnorm. rnum. fold c b0.
+        replace (vdivs (vcross u r) (sqrt c * (sqrt c - b0))) with (vscale (/ (sqrt c * (sqrt c - b0))) (vcross u r))
+          by (destruct (vcross u r); apply V3_eq; rcompute; unfold Rdiv; ring).
+        rewrite Hproj. apply Rmult_comm.
+  Qed.
+End TrailingVec.
